@@ -1,5 +1,6 @@
 import CM.Lib.Wire
 import CM.Model.Handshake
+import CM.Generated.Fn
 /-! Driver handler for C02.
 
 `q <name>`  — the model of SubjectQualifiesForCert on one string.
@@ -174,7 +175,12 @@ def handle (args impl : List String) : String :=
   match args with
   | ["q", name] =>
     match decStr name with
-    | some s => let r := qualifies s; reply (if r then "1" else "0") "-" (if r then "" else "rejects")
+    | some s =>
+      let r := qualifies s
+      -- the definition the function translator printed from the source on this run (CM/Generated/Fn)
+      if CM.Gen.Fn.translated.contains "SubjectQualifiesForCert" && CM.Gen.Fn.SubjectQualifiesForCert s != r then
+        reply "translated-definition-differs-from-model" "-" "!" else
+      reply (if r then "1" else "0") "-" (if r then "" else "rejects")
     | none => bad
   | "hs" :: od :: fn :: mg :: af :: ar :: idna :: allow :: name :: hit :: dflt :: managed :: due :: tlpos :: revoked :: aridue :: "M" :: toks =>
     match decStr name with
